@@ -117,6 +117,13 @@ HOSTILE = [
     '"',
     "\\",
     "\ud800",
+    # digit runs longer than int() converts (sys.get_int_max_str_digits() = 4300 since Python 3.11)
+    "1 U.S. " + "1" * 5000,
+    "7" * 5000 + " U.S. 1",
+    "Id. at " + "3" * 5000,
+    "1 U.S. 1 (" + "2" * 5000 + ")",
+    "§ " + "4" * 5000,
+    "1 Minn. L. Rev. " + "5" * 5000,
 ]
 
 SEPARATORS = [" ", ", ", "; ", ". ", " and ", "\n", "  ", ""]
